@@ -330,8 +330,6 @@ def harnesses(tier):
                 hs.append(Harness(f"CGMY.{br}.n{n}.{kind}", h_moment, {"model": f"CGMY.{br}", "n": n, "kind": kind}, max_paths=400, timeout_ms=40000))
     for model in ("HEM", "VG"):
         for n in (0, 1, 2):
-            if model == "VG" and n == 0:
-                continue
             hs.append(Harness(f"xn_dispatch.{model}.{n}", h_xn_dispatch, {"model": model, "n": n}, max_paths=400))
     hs.append(Harness("twin", h_twin, twin="must_fail"))
     return hs
